@@ -1,5 +1,7 @@
 //! C06 — Compilation is total: every input yields a package or a report.
 
+use std::fmt::Write as _;
+
 use roto::{FileSpec, FileTree, NoCtx, Runtime, SourceFile};
 
 use crate::ast::*;
@@ -40,6 +42,132 @@ fn depth_ok(tok: &str, depth: &mut usize) -> bool {
         }
         _ => true,
     }
+}
+
+/// (v) type declarations referring to each other in every way the type grammar allows
+/// (directly, through options, lists, anonymous records and type arguments of other
+/// generic declarations, with matching and mismatching arities), plus functions using them
+fn decl_graph(c: &mut Choices) -> String {
+    let n = 1 + c.below(5);
+    let names = ["A", "B", "C", "D", "E"];
+    let arity: Vec<usize> = (0..n).map(|_| if c.chance(110) { 1 + c.below(2) } else { 0 }).collect();
+    fn ty(c: &mut Choices, depth: u32, n: usize, names: &[&str], arity: &[usize], own_params: usize) -> String {
+        let k = if depth == 0 { c.below(4) } else { c.below(12) };
+        match k {
+            0 => ["u8", "i32", "String", "bool", "u64", "()"][c.below(6)].to_string(),
+            1 | 2 if own_params > 0 => ["T", "U"][c.below(own_params)].to_string(),
+            3 | 4 | 5 | 6 => {
+                let d = c.below(n);
+                let want = if c.chance(20) { c.below(3) } else { arity[d] };
+                if want == 0 {
+                    names[d].to_string()
+                } else {
+                    let args: Vec<String> = (0..want).map(|_| ty(c, depth.saturating_sub(1), n, names, arity, own_params)).collect();
+                    format!("{}[{}]", names[d], args.join(", "))
+                }
+            }
+            7 | 8 if depth > 0 => format!("{}?", ty(c, depth - 1, n, names, arity, own_params)),
+            9 if depth > 0 => format!("List[{}]", ty(c, depth - 1, n, names, arity, own_params)),
+            10 if depth > 0 => format!("{{ a: {}, b: {} }}", ty(c, depth - 1, n, names, arity, own_params), ty(c, depth - 1, n, names, arity, own_params)),
+            11 if depth > 0 => format!("Result[{}, {}]", ty(c, depth - 1, n, names, arity, own_params), ty(c, depth - 1, n, names, arity, own_params)),
+            _ => ["u8", "i32", "String"][c.below(3)].to_string(),
+        }
+    }
+    let mut s = String::new();
+    for d in 0..n {
+        let params = match arity[d] {
+            0 => String::new(),
+            1 => "[T]".to_string(),
+            _ => "[T, U]".to_string(),
+        };
+        if c.chance(128) {
+            let nf = 1 + c.below(3);
+            let fields: Vec<String> = (0..nf).map(|f| format!("f{f}: {}", ty(c, 2, n, &names, &arity, arity[d]))).collect();
+            let _ = writeln!(s, "record {}{} {{ {} }}", names[d], params, fields.join(", "));
+        } else {
+            let nv = 1 + c.below(3);
+            let vs: Vec<String> = (0..nv)
+                .map(|v| {
+                    let nf = c.below(3);
+                    if nf == 0 {
+                        format!("V{d}{v}")
+                    } else {
+                        let ts: Vec<String> = (0..nf).map(|_| ty(c, 2, n, &names, &arity, arity[d])).collect();
+                        format!("V{d}{v}({})", ts.join(", "))
+                    }
+                })
+                .collect();
+            let _ = writeln!(s, "enum {}{} {{ {} }}", names[d], params, vs.join(", "));
+        }
+    }
+    let nfn = 1 + c.below(3);
+    for f in 0..nfn {
+        let t = ty(c, 2, n, &names, &arity, 0);
+        match c.below(4) {
+            0 => {
+                let _ = writeln!(s, "fn g{f}(x: {t}) -> bool {{ true }}");
+            }
+            1 => {
+                let _ = writeln!(s, "fn g{f}(x: {t}) -> {t} {{ x }}");
+            }
+            2 => {
+                let _ = writeln!(s, "fn g{f}(x: {t}) -> bool {{ x == x }}");
+            }
+            _ => {
+                let _ = writeln!(s, "fn g{f}(x: List[{t}]) -> {t}? {{ x.get(0) }}");
+            }
+        }
+    }
+    s
+}
+
+/// (vi) import statements: valid and invalid paths, groups, duplicates and clashes, at
+/// the top level and inside function bodies, followed by uses of the imported names
+fn import_soup(c: &mut Choices) -> String {
+    const PATHS: [&str; 28] = [
+        "Option.Some", "Option.None", "Option.Nome", "Option", "Result.Ok", "Result.Err", "Result.Okay", "Verdict.Accept", "Verdict.Reject",
+        "pkg.f", "pkg.g", "pkg.m1.f", "pkg.m1", "pkg.m2.h", "super.f", "super.super.f", "m1.f", "m1", "std.x", "dep.y", "String", "List",
+        "u32", "zz", "pkg", "pkg.E.A", "pkg.E", "E.B",
+    ];
+    let item = |c: &mut Choices| -> String {
+        if c.chance(60) {
+            let base = ["Option", "Result", "pkg", "pkg.m1", "pkg.E", "Verdict"][c.below(6)];
+            let n = 1 + c.below(3);
+            let leaves = ["Some", "None", "Nome", "Ok", "Err", "f", "g", "h", "A", "B", "Accept", "zz"];
+            let parts: Vec<&str> = (0..n).map(|_| leaves[c.below(leaves.len())]).collect();
+            format!("import {base}.{{{}}};", parts.join(", "))
+        } else {
+            format!("import {};", PATHS[c.below(PATHS.len())])
+        }
+    };
+    let mut s = String::new();
+    let n_top = c.below(4);
+    for _ in 0..n_top {
+        let _ = writeln!(s, "{}", item(c));
+    }
+    let _ = writeln!(s, "enum E {{ A(i32), B }}");
+    let _ = writeln!(s, "fn f() -> i32 {{ 1 }}");
+    let _ = writeln!(s, "fn g(x: i32) -> i32 {{ x }}");
+    let n_fn = 1 + c.below(3);
+    for k in 0..n_fn {
+        let _ = writeln!(s, "fn u{k}(x: i32) -> i32? {{");
+        let n_in = c.below(3);
+        for _ in 0..n_in {
+            let _ = writeln!(s, "    {}", item(c));
+        }
+        if c.chance(100) {
+            let _ = writeln!(s, "    if x > 0 {{
+        {}
+        let y = f();
+    }} else {{
+        let z = g(x);
+    }}", item(c));
+        }
+        let body = ["Some(x)", "None", "Option.Some(f())", "Some(g(x))", "match A(x) { A(v) => Some(v), B => None }", "Ok(x)?", "Some(h())"][c.below(7)];
+        let _ = writeln!(s, "    {body}
+}}");
+    }
+    s
 }
 
 /// (i) random token soup
@@ -230,9 +358,13 @@ impl W {
         let n_files = if c.chance(40) { 2 + c.below(2) } else { 1 };
         let mut files = Vec::new();
         for fi in 0..n_files {
-            let kind = c.below(12);
+            let kind = c.below(15);
             let text = if kind < 3 {
                 token_soup(&mut c)
+            } else if kind == 12 || kind == 13 {
+                decl_graph(&mut c)
+            } else if kind == 14 {
+                import_soup(&mut c)
             } else if kind == 7 || kind == 8 {
                 // (iii') a well-typed generated program with one type-breaking edit (C07's catalogue)
                 let s0 = case.get(1 + 2 * fi).unwrap_or(&empty);
@@ -305,7 +437,7 @@ impl Prop for C06P {
         "C06"
     }
     fn rule(&self) -> String {
-        "source texts from two generators (random token sequences over the full token alphabet incl. non-ASCII, malformed and unterminated literals; valid generated programs with 1-3 token/character-level mutations), as single files and as 2-3 module trees, bracket nesting <= 64; oracle: FileTree::compile returns a package or a report, the report renders with and without colour, every cited location lies in its file on char boundaries; any panic/abort/stack overflow is a violation. Non-trivial: the input gets past the parser or is longer than 20 bytes; distinct by text".into()
+        "source texts from six generators (random token sequences over the full token alphabet incl. non-ASCII, malformed and unterminated literals; valid generated programs with 1-3 token/character-level mutations; syntactically valid but mostly ill-typed programs; well-typed programs with one type-breaking edit; graphs of 1-5 record/enum declarations referring to themselves and each other directly and through options, lists, anonymous records, Result and type arguments with matching and mismatching arity; import statements with valid and invalid paths, groups, duplicates and clashes at top level and inside bodies), as single files and as 2-3 module trees, bracket nesting <= 64; oracle: FileTree::compile returns a package or a report, the report renders with and without colour, every cited location lies in its file on char boundaries; any panic/abort/stack overflow is a violation. Non-trivial: the input gets past the parser or is longer than 20 bytes; distinct by text".into()
     }
     fn assumptions(&self) -> Vec<String> {
         vec![
